@@ -281,7 +281,7 @@ pub fn random_case(r: &mut Rng) -> Case {
 }
 
 pub fn run(cfg: &Cfg, rep: &mut Report) {
-  let total = cfg.n(120_000, 20_000_000);
+  let total = cfg.n(500_000, 20_000_000);
   let mut rng = Rng::new(cfg.seed ^ 0xC19);
   for i in 0..total {
     let mut r = rng.fork();
@@ -328,5 +328,5 @@ pub fn run(cfg: &Cfg, rep: &mut Report) {
   }
 
   // thread part: worker threads run the bodies while another thread cancels the handles (baton scheduler)
-  super::thr::task_campaign(cfg, rep, cfg.n(6_000, 600_000));
+  super::thr::task_campaign(cfg, rep, cfg.n(12_000, 600_000));
 }
